@@ -22,6 +22,8 @@ pub fn generate(s: &mut Session, tier: &str, rng: &mut Rng) {
     let thorough = tier == "thorough";
     // "the server dials exactly the requested host and port": the target the local handshake extracts from the request
     crate::c13::target_cases(s, if thorough { 6000 } else { 600 }, rng);
+    // "every byte written by the target arrives at the application": also when the link fails right behind them
+    crate::c15::link_reset_cases(s, thorough, rng);
     let mut transports = vec!["tcp", "ws"];
     if tls_available() {
         transports.extend(["tls", "wss", "quic"]);
